@@ -16,6 +16,8 @@ import CfavmlModel.Gen.Tables
 import CfavmlModel.Gen.ImplTables
 import CfavmlModel.Gen.RefTables
 import CfavmlModel.Gen.KernelTables
+import CfavmlModel.Gen.Dispatch
+import CfavmlModel.Spec.TestEnv
 
 open Cfavml Cfavml.Tables Cfavml.Spec
 
@@ -39,8 +41,32 @@ def c09 : List String := Id.run do
           out := out ++ [s!"dispatch! selects the unusable slot {repr got}: build={repr b} supplied=({s1},{s2},{s3},{s4}) available=({a1},{a2},{a3},{a4})"]
   return out
 
-def c10 : List String := Id.run do
+/-- the availability checks as regenerated from dispatch.rs, run on every combination of compile-time target features,
+`std` and detected CPU features: a positive answer must mean every feature the guard stands for is present -/
+def availabilityWitnesses : List String := Id.run do
   let mut out : List String := []
+  let guards : List (String × (Env → Exec Bool) × List (String × (Env → Bool))) := [
+    ("is_avx512_available", is_avx512_available,
+      [("avx512f", fun E => E.tf_avx512f || E.cpu_avx512f), ("avx512bw", fun E => E.tf_avx512bw || E.cpu_avx512bw)]),
+    ("is_avx2_available", is_avx2_available, [("avx2", fun E => E.tf_avx2 || E.cpu_avx2)]),
+    ("is_fma_available", is_fma_available, [("fma", fun E => E.tf_fma || E.cpu_fma)]),
+    ("is_neon_available", is_neon_available, [("neon", fun E => E.tf_neon || E.cpu_neon)])]
+  for std in bools do
+    for t1 in bools do for t2 in bools do for t3 in bools do for t4 in bools do
+      for c1 in bools do for c2 in bools do for c3 in bools do for c4 in bools do
+        for neon in bools do
+          let E : Env := { testEnv with feat_std := std, tf_avx512f := t1, tf_avx512bw := t2, tf_avx2 := t3, tf_fma := t4, cpu_avx512f := c1, cpu_avx512bw := c2, cpu_avx2 := c3, cpu_fma := c4, tf_neon := neon, cpu_neon := neon }
+          for (name, g, feats) in guards do
+            match g E with
+            | .ok true =>
+              for (fname, has) in feats do
+                if !has E && out.length < 8 then
+                  out := out ++ [s!"{name}() answers true although {fname} is absent: std={std} target_features(avx512f,avx512bw,avx2,fma)=({t1},{t2},{t3},{t4}) cpu(avx512f,avx512bw,avx2,fma)=({c1},{c2},{c3},{c4}) neon={neon}"]
+            | _ => pure ()
+  return out
+
+def c10 : List String := Id.run do
+  let mut out : List String := availabilityWitnesses
   for r in implMethods do
     if !implRowOk intrinsicFeatures r then
       let bad := r.intrinsics.filter (fun i =>
@@ -92,7 +118,7 @@ def c08 : List String := Id.run do
 def main (args : List String) : IO UInt32 := do
   let ws := match args with
     | ["C08"] => c08
-    | ["C09"] => c09
+    | ["C09"] => c09 ++ availabilityWitnesses
     | ["C10"] => c10
     | ["C11"] => c11
     | ["C14"] => c14
